@@ -72,6 +72,10 @@ Full statement / proved / missing
   `C15_has_iff_load_toplevel` (proved) — `HasEntry` ⇔ the lookup does not answer `notfound`, for such loaders and names;
   `C15_has_load_disagree`, `C15_has_load_disagree_reserved` — `C15_has_load_agree_full` is false in general (`HasEntry`
   consults the index only, `find` filters first).
+  `C15_case_irrelevant_toplevel` (audit; proved) — "lookups ignore letter case" for this class: two spellings of one name
+  get the same outcome and the same read (first origin not a bare expression).  Elsewhere letter case is covered by the
+  name clause of `C15_name` and by examples.  NOTE: "a file at the derived path" is read through the index everywhere (a
+  file matches when its LOWER-CASED relative path is the derived one: `Thing.pp` answers `Thing`).
 * `C15_find_miss`, `C15_absent_global_deep` (proved) — the complete miss of a file loader for a name of ANY depth (every
   proper prefix cached or without origin): nothing answered, state untouched, fuel `3 * length`; `notfound` + one
   placeholder through the global loader.  `C15_module_outcome_deep`, `C15_found_iff_module_deep`,
@@ -379,6 +383,28 @@ example : idx gCfg .g (keyOf ["THING"]) = [["env", "types", "Thing.pp"]] ∧ sys
     (loadS 7 gCfg {} ["Ns", "Deep"]).1 = .failed (.reported "PCORE_WRONG_DEFINITION" (some ["env", "types", "ns", "deep.pp"]) 0) := by
   decide
 
+/-- added by the audit (notes/audit-C15.md) — the hypothesis `NotTypeset` of `C15_found_iff_global`, which the example above
+    leaves implicit, holds of that tree and name -/
+example : NotTypeset gCfg ["THING"] := by
+  intro p ps nm ts h
+  have hi : idx gCfg .g (keyOf ["THING"]) = [["env", "types", "Thing.pp"]] := by decide
+  have hb : bodyAt gCfg.tree ["env", "types", "Thing.pp"] = some (.typ .object ["Thing"] []) := by decide
+  rw [hi] at h
+  cases h
+  rw [hb]
+  intro h'
+  cases h'
+
+/-- added by the audit — HOW "a definition file exists at the path derived from the name" IS READ by every theorem of this
+    file: through the INDEX (`idx`: the files whose lower-cased relative path yields the key), not through `effectivePath`.
+    The two agree for lower-case file names (`C15_index_iff`); a file whose NAME has capitals is found although no file sits
+    at the derived (lower-cased) path — the oracle of the harness reads the property the same way ("lookups ignore letter
+    case" applied to the file name too), and on a case-sensitive file system the implementation behaves like this -/
+example : effectivePath (spOf .g) ["THING"] = .path ["env", "types", "thing.pp"] ∧
+    bodyAt gCfg.tree ["env", "types", "thing.pp"] = none ∧
+    idx gCfg .g (keyOf ["THING"]) = [["env", "types", "Thing.pp"]] ∧
+    (loadS 7 gCfg {} ["THING"]).1 = .found ⟨.object, ["Thing"]⟩ := by decide
+
 /-! ## a module-relative name through the module loader and through the dependency loader (partial) -/
 
 /-- the outcome (found / wrong definition / parse error with its line / no definition / unreadable) is decided by the
@@ -612,6 +638,40 @@ example : Defective (.typ .alias ["Other"] []) ["Wrong"] ∧
   show keyOf ["Other"] ≠ keyOf ["Wrong"]
   decide
 
+/-- added by the audit — the hypothesis `NoSource` of `C15_absent_stays_absent` is satisfiable: the example above only SAYS that
+    `Other` has no source in `wrongCfg`; here it is proved (no core type; no loader — global, dependency, a module of ANY
+    name — indexes a file under `other`; no file of the tree holds a type set) -/
+example : NoSource wrongCfg (keyOf ["Other"]) := by
+  have hg : idx wrongCfg .g (keyOf ["Other"]) = [] := by decide
+  have hd : idx wrongCfg .d (keyOf ["Other"]) = [] := by decide
+  refine ⟨by decide, ?_, ?_⟩
+  · rintro p ⟨l, h⟩
+    cases l with
+    | m mod =>
+      rcases h with h | ⟨_, _, _, hk, _⟩
+      · simp [idx, wrongCfg, fileKeys, relOf, spOf, SmartPath.generic] at h
+      · cases hk
+        simp [idx, wrongCfg, fileKeys, relOf, spOf, SmartPath.generic] at *
+    | g =>
+      rcases h with h | ⟨_, hl, _⟩
+      · rw [hg] at h; cases h
+      · cases hl
+    | d =>
+      rcases h with h | ⟨_, hl, _⟩
+      · rw [hd] at h; cases h
+      · cases hl
+  · intro p nm ts t hb
+    exfalso
+    unfold bodyAt at hb
+    cases hf : wrongCfg.tree.find? (fun f => f.1 = p) with
+    | none => rw [hf] at hb; cases hb
+    | some f =>
+      rw [hf] at hb
+      simp only [Option.some.injEq] at hb
+      have hm := List.mem_of_find?_eq_some hf
+      simp only [wrongCfg, List.mem_cons, List.not_mem_nil, or_false] at hm
+      rcases hm with rfl | rfl | rfl <;> cases hb
+
 /-! ## the three kinds of loader the constructor distinguishes; `HasEntry` against `LoadEntry` -/
 
 /-- `newFileBasedLoader` and `isGlobal()` agree: a loader's smart paths are module-name relative exactly when the loader
@@ -758,6 +818,60 @@ theorem C15_has_load_disagree_reserved :
     hasEntry tsCfg {} (.m "mymod") (keyOf ["Init_typeset"]) = true ∧
     (loadS 40 { tsCfg with via := .m "mymod" } {} ["Init_typeset"]).1 = .notfound := by
   decide
+
+/-- added by the audit — both sides of `C15_has_iff_load_toplevel` on concrete inputs (its hypotheses are those of
+    `C15_toplevel_outcome`, shown above): `HasEntry` true / the lookup finds; `HasEntry` false / `notfound`; `HasEntry` true /
+    the lookup REPORTS (a malformed file: "does not answer notfound" is not "finds") -/
+example : hasEntry (kindCfg (.m "environment")) {} (.m "environment") (keyOf ["Thing"]) = true ∧
+    (loadS 7 (kindCfg (.m "environment")) {} ["Thing"]).1 ≠ .notfound ∧
+    hasEntry (kindCfg (.m "environment")) {} (.m "environment") (keyOf ["Nope"]) = false ∧
+    (loadS 7 (kindCfg (.m "environment")) {} ["Nope"]).1 = .notfound ∧
+    hasEntry gCfg {} .g (keyOf ["Bad"]) = true ∧
+    (loadS 7 gCfg {} ["Bad"]).1 = .failed (.reported "PARSE_ERROR" (some ["env", "types", "bad.pp"]) 3) := by decide
+
+/-- added by the audit — "lookups ignore letter case" as a THEOREM for the class of `C15_toplevel_outcome` (elsewhere it is only
+    the name clause of `C15_name` plus examples): two spellings of one name (same key) are answered alike — same outcome, same
+    file read — through a top-level loader of any kind, when the first origin is not a bare expression (a bare expression
+    takes the name AS SPELLED by the caller: `plainOutcomeAt`).  The hypotheses are asked of one spelling only; they depend on
+    the key alone. -/
+theorem C15_case_irrelevant_toplevel (cfg : Cfg) (l : Lid) (hv : cfg.via = l)
+    (hl : l = .g ∨ (∃ mod, l = .m mod) ∧ cfg.flat = true) (name name' : Name) (hk : keyOf name' = keyOf name)
+    (s : St) (n : Nat)
+    (hsys : sysLoad name = none) (hget : s.get l (keyOf name) = none) (hroute : Routed l name)
+    (p : Path) (ps : List Path) (hi : idx cfg l (keyOf name) = p :: ps)
+    (hnt : ∀ nm ts, bodyAt cfg.tree p ≠ some (.typ .typeset nm ts)) (hnb : bodyAt cfg.tree p ≠ some .bare) :
+    (loadS (n+7) cfg s name').1 = (loadS (n+7) cfg s name).1 ∧
+    (loadS (n+7) cfg s name').2.reads = (loadS (n+7) cfg s name).2.reads := by
+  have hlen : name'.length = name.length := by
+    have := congrArg List.length hk
+    simpa [keyOf] using this
+  have hsys' : sysLoad name' = none := by unfold sysLoad at hsys ⊢; rw [hk]; exact hsys
+  have hroute' : Routed l name' := by
+    unfold Routed at hroute ⊢
+    unfold qualified partsOf at hroute ⊢
+    rw [hk, hlen]; exact hroute
+  have h1 := toplevel_plain cfg l hv hl name s n hsys hget hroute p ps hi hnt
+  have h2 := toplevel_plain cfg l hv hl name' s n hsys' (hk ▸ hget) hroute' p ps (hk ▸ hi) hnt
+  refine ⟨?_, by rw [h1.2, h2.2]⟩
+  rw [h1.1, h2.1]
+  unfold plainOutcomeAt
+  rw [hk, hi]
+  simp only []
+  cases hb : bodyAt cfg.tree p with
+  | none => rfl
+  | some b =>
+    cases b with
+    | bare => exact absurd hb hnb
+    | _ => rfl
+-- non-vacuity: two spellings with one key below the `environment` loader (hypotheses: the `kindCfg` example above); the first
+-- origin is an alias definition, no bare expression; both are answered with the name as DEFINED
+example : keyOf ["THING"] = keyOf ["Thing"] ∧
+    bodyAt (kindCfg (.m "environment")).tree ["modules", "environment", "types", "thing.pp"] = some (.typ .alias ["Thing"] []) ∧
+    (loadS 7 (kindCfg (.m "environment")) {} ["THING"]).1 = .found ⟨.alias, ["Thing"]⟩ ∧
+    (loadS 7 (kindCfg (.m "environment")) {} ["Thing"]).1 = .found ⟨.alias, ["Thing"]⟩ := by decide
+-- … and the exclusion is real: a bare expression is answered under the caller's spelling (`modCfg`: `other/types/thing.pp`)
+example : (loadS 11 (modCfg .d) {} ["other", "THING"]).1 = .found ⟨.alias, ["other", "THING"]⟩ ∧
+    (loadS 11 (modCfg .d) {} ["Other", "Thing"]).1 = .found ⟨.alias, ["Other", "Thing"]⟩ := by decide
 
 /-! ## names of any depth; names whose ancestors exist -/
 
